@@ -40,6 +40,9 @@ func buildLibScaled(s *exact.Shape, ic IdxCfg, closed bool, sc float64) libShape
 func buildLibEnc(s *exact.Shape, ic IdxCfg, closed bool, enc FEnc) libShape {
 	l := libShape{src: s, ic: ic, clos: closed}
 	sp := enc.Pt
+	if enc.Move {
+		sp = FEnc{Sc: enc.Sc}.Pt
+	}
 	sps := func(ps []exact.P, cl bool) []geometry.Point {
 		out := make([]geometry.Point, 0, len(ps)+1)
 		for _, p := range ps {
@@ -68,6 +71,22 @@ func buildLibEnc(s *exact.Shape, ic IdxCfg, closed bool, enc FEnc) libShape {
 		p := geometry.NewPoly(sps(s.Ext, closed), hs, ic.Opts())
 		l.g, l.obj = p, geojson.NewPolygon(p)
 	}
+	if enc.Move {
+		switch v := l.g.(type) {
+		case geometry.Point:
+			p := v.Move(enc.TX, enc.TY)
+			l.g, l.obj = p, geojson.NewPoint(p)
+		case geometry.Rect:
+			r := v.Move(enc.TX, enc.TY)
+			l.g, l.obj = r, geojson.NewRect(r)
+		case *geometry.Line:
+			ln := v.Move(enc.TX, enc.TY)
+			l.g, l.obj = ln, geojson.NewLineString(ln)
+		case *geometry.Poly:
+			p := v.Move(enc.TX, enc.TY)
+			l.g, l.obj = p, geojson.NewPolygon(p)
+		}
+	}
 	return l
 }
 
@@ -83,6 +102,7 @@ type FEnc struct {
 	Name   string
 	Sc     float64
 	TX, TY float64
+	Move   bool // build at Sc*lattice and let the library translate by (TX,TY) through Move()
 }
 
 // Pt applies the encoding.
@@ -106,14 +126,16 @@ var allEncs = func() []FEnc {
 	for _, sc := range libScales {
 		out = append(out, FEnc{Name: fmt.Sprintf("scale %g", sc), Sc: sc})
 	}
-	return append(out, fineEncs...)
+	out = append(out, fineEncs...)
+	return append(out, FEnc{Name: "Move(40,-24)", Sc: 1, TX: 40, TY: -24, Move: true}, FEnc{Name: "Move(0.5,1024)", Sc: 1, TX: 0.5, TY: 1024, Move: true},
+		FEnc{Name: "Move(-3,0)", Sc: 1, TX: -3, TY: 0, Move: true}, FEnc{Name: "2^-10 lattice, Move(0,-0.25)", Sc: 1.0 / 1024, TX: 0, TY: -0.25, Move: true})
 }()
 
 var fineEncs = []FEnc{
-	{"2^-10 at (2^20-4, -(2^20-4))", 1.0 / 1024, 1<<20 - 4, -(1<<20 - 4)},
-	{"2^-17 at (3,-5)", 1.0 / (1 << 17), 3, -5},
-	{"2^-20 at origin", 1.0 / (1 << 20), 0, 0},
-	{"2^-6 at (-(2^20-64), 2^19)", 1.0 / 64, -(1<<20 - 64), 1 << 19},
+	{Name: "2^-10 at (2^20-4, -(2^20-4))", Sc: 1.0 / 1024, TX: 1<<20 - 4, TY: -(1<<20 - 4)},
+	{Name: "2^-17 at (3,-5)", Sc: 1.0 / (1 << 17), TX: 3, TY: -5},
+	{Name: "2^-20 at origin", Sc: 1.0 / (1 << 20), TX: 0, TY: 0},
+	{Name: "2^-6 at (-(2^20-64), 2^19)", Sc: 1.0 / 64, TX: -(1<<20 - 64), TY: 1 << 19},
 }
 
 func gIntersects(a, b libShape) bool {
